@@ -458,6 +458,10 @@ func buildC07(tier string) *core.Plan {
 				map[string]any{"e": map[string]any{"$encode": "tolist:=", "a": "x", "k": mk}},
 				map[string]any{"e": map[string]any{"$encode": "flags", "a": "x", "k": mk}},
 				map[string]any{"e": map[string]any{"$encode": []any{"values", "join:,"}, "a": "x", "k": mk}},
+				// the marker sits in a hidden place and is pulled into text by interpolation
+				map[string]any{"t": map[string]any{"$output": false, "v": mk}, "s": `$"x-{t.v}"`},
+				map[string]any{"t": map[string]any{"$output": false, "v": mk}, "k": map[string]any{`$"{t.v}-key"`: 1}},
+				map[string]any{"t": map[string]any{"$output": false, "v": mk, "w": "ok"}, "s": `$"{t.w}{t.v}"`},
 			}
 			for _, d := range docs {
 				c.Eval()
